@@ -225,7 +225,7 @@ class AckMonitor(Monitor):
                 if len(d):
                     self.fail("drain:%s" % name, "%s holds %d entries at quiescence: %r" % (name, len(d), list(d)[:3]))
         for t in b.live_timers():
-            if not world.is_heartbeat(t):
+            if not world.is_heartbeat(t) and t.owner is not None:      # harness timers (scripted worker replies) are not the engine's
                 self.fail("drain:armed-timer", "timer %s still armed at quiescence" % (t.label or getattr(t.callback, "__qualname__", "?")))
         if b.queue_depths():
             self.fail("drain:queued-messages", "%r" % b.queue_depths())
